@@ -249,3 +249,46 @@ def c13(res):
                 "against BFS layers (Graph!Layers), discovery length against MinWitnessDepth; TLC's own BFS level equals "
                 "the layer (MCGraph!LevelIsLayer)")
     run_family(res, "C13", FIELDS["C13"], graphs, cfgs)
+
+
+def c10(res):
+    """C10: (a) plans / reindex / rewrite, (b) representative() of real actor-system states, (c) real DFS and simulation
+    with symmetry on symmetric process-vector models."""
+    import fam_algebra, fam_actor
+    import gen_actors as ga
+    rng = random.Random(seed() * 1000 + 10)
+    q = res.tier == "quick"
+    wd = workdir("C10-%s" % res.tier)
+    fam_algebra.mc_algebra(res, 3, 2)
+    fam_algebra.c10a(res, wd)
+    # (b) representative of every reachable state of table systems (ties, timers, crashes, random choices)
+    systems = []
+    for name, actors in ga.hand_written():
+        systems += [s for s in ga.variants(name, actors, rng, full=True) if s["max_crashes"] in (0, 1)][::2]
+    systems += [ga.random_system(rng, "R%d" % i) for i in range(40 if q else 800)]
+    # identical actors give ties in the sort
+    for i in range(20 if q else 300):
+        s = ga.random_system(rng, "T%d" % i)
+        s["actors"] = [copy_actor(s["actors"][0]) for _ in s["actors"]]
+        systems.append(s)
+    fam_actor.run_family(res, "C10b", systems, ["representative"], [], real_counts=False)
+    # (c) symmetric graphs: DFS with symmetry vs the full graph
+    graphs = [gg.symmetric_graph(rng, "F5-%d" % i) for i in range(250 if q else 4000)]
+
+    def cfgs(i, g):
+        c = [gg.base_cfg("dfs", t, symmetry=True) for t in ((1, 2) if q else (1, 2, 4))]
+        c.append(gg.base_cfg("dfs", 1))
+        c.append(gg.base_cfg("sim", 1, symmetry=True, target_states=40, seed=rng.randint(0, 2 ** 32)))
+        return c
+    run_family(res, "C10", ["sym_cover", "verdicts", "witness", "paths", "subset"], graphs, cfgs)
+    res.rule = ("(a) from_values_to_sort / reindex / rewrite on all vectors (with ties) and 13 container kinds under all plans; "
+                "(b) representative() of every reachable state of table actor systems = Permute(stable sort plan); (c) real "
+                "spawn_dfs().symmetry_fn and simulation on symmetric process-vector models (2-3 identical processes, guards, "
+                "symmetric properties): verdicts equal the unreduced semantics, every orbit has an evaluated member, no more "
+                "states than the unreduced check, paths are real executions")
+    shutil.rmtree(wd, ignore_errors=True)
+
+
+def copy_actor(a):
+    import copy
+    return copy.deepcopy(a)
